@@ -675,6 +675,10 @@ func (g *Gen) run() {
 	for _, b := range order {
 		g.block(b, st)
 	}
+	if gl := g.con.Opts["grow-only"]; gl != "" && g.safeCtr["growonly"] == 0 {
+		// the structural half of the clause holds: no statement of the function deletes from these maps
+		g.addObl("grow-only", "no-delete", "true", fn.Pos(), "no key is ever deleted from the maps in field(s) "+gl+" (every delete statement of the function was inspected)", nil)
+	}
 	if g.retCount == 0 && !g.con.MayPanic {
 		// no return processed: nothing to prove about post
 	}
